@@ -137,6 +137,37 @@ def ring_files(rel, n, files):
     return out
 
 
+def attr_text(name, kind):
+    """One attribute (or nothing) in brackets, for a value of the given kind."""
+    v = {"string": '%s="x"' % name, "list": '%s=["y"]' % name, "empty": "%s=[]" % name, "nested": '%s=[["z", "w"], ["v"]]' % name,
+         "modifier": "~foo" if name == "patterns" else '~%s' % name, "multiline": '%s="x"' % name, "none": ""}[kind]
+    return " [%s]" % v if v else ""
+
+
+MERGE_TMPL = {
+    "collector-ep": "App:\n    Ep{A}:\n        ...\n    .. * <- *:\n        Ep{B}\n",
+    "collector-call": "App:\n    Ep:\n        ...\n    Caller:\n        App <- Ep{A}\n    .. * <- *:\n        App <- Ep{B}\n",
+    "collector-rest": "App:\n    /a:\n        GET{A}:\n            ...\n    .. * <- *:\n        GET /a{B}\n",
+    "collector-pubsub": "Pub:\n    <-> Ev{A}:\n        ...\n    .. * <- *:\n        Sub <- Pub -> Ev{B}\nSub:\n    Pub -> Ev{A}:\n        ...\n",
+    "app-again": "App{A}:\n    Ep:\n        ...\nApp{B}:\n    Ep2:\n        ...\n",
+    "ep-again": "App:\n    Ep{A}:\n        ...\nApp:\n    Ep{B}:\n        ...\n",
+    "type-again": "App:\n    !type T{A}:\n        f <: int\nApp:\n    !type T{B}:\n        g <: int\n",
+    "rest-again": "App:\n    /a:\n        GET{A}:\n            ...\nApp:\n    /a:\n        GET{B}:\n            ...\n",
+    "annotation": "App:\n    Ep{A}:\n        @{N} = {BV}\n        ...\n",
+    "rest-nested": "App:\n    /a{A}:\n        /b{B}:\n            GET{A}:\n                ...\n",
+    "event-sub": "Sub:\n    Pub -> Ev{B}:\n        ...\nPub:\n    <-> Ev{A}:\n        ...\n",
+    "view-again": "App:\n    !view v(a <: int) -> int{A}:\n        a -> (:\n            x = 1\n        )\nApp:\n    !view v(a <: int) -> int{B}:\n        a -> (:\n            x = 1\n        )\n",
+    "mixin": "Base{A}[~abstract]:\n    Ep{A}:\n        ...\nApp{B}:\n    -|> Base\n    Ep{B}:\n        ...\n",
+}
+
+
+def merge_program(s):
+    a, b = attr_text(s["name"], s["first"]), attr_text(s["name"], s["second"])
+    bv = {"string": '"x"', "list": '["y"]', "empty": "[]", "nested": '[["z", "w"], ["v"]]', "modifier": '["foo"]',
+          "multiline": ":\n            | line one\n            | line two", "none": '""'}[s["second"]]
+    return MERGE_TMPL[s["pos"]].replace("{A}", a).replace("{B}", b).replace("{N}", s["name"]).replace("{BV}", bv)
+
+
 def check_c01(ctx):
     quick = ctx.quick()
     rng = random.Random(ctx.seed)
@@ -163,6 +194,9 @@ def check_c01(ctx):
     # rings of declarations that refer to one another
     for s in [x for x in table if x["kind"] == "ring"]:
         add(ring_files(s["rel"], s["n"], s["files"]), what=s)
+    # one attribute, two sources, values of different kinds
+    for s in [x for x in table if x["kind"] == "attrmerge"]:
+        add({"main.sysl": merge_program(s)}, what=s)
     # near-misses of valid generated programs
     progs = fam_frontend.programs(ctx, 40 if quick else 400, seed_off=1)
     for p in progs:
@@ -235,5 +269,6 @@ def check_c01(ctx):
     return core.finish(ctx, "exploration", cov, [
         "compiles run in-process in a guarded goroutine (recover only classifies the panic) with a 10 s bound, re-run with 30 s before a hang is reported",
         "a fatal runtime error (stack exhaustion) kills the driver process: the orchestrator attributes it to the running scenario (event `fatal`, which the life cycle cannot explain) and restarts the driver",
+        "one attribute given to one element by two sources (collector statement, re-declaration, annotation, nested REST block, event and subscriber, mixin) with every pair of value kinds (string, list, empty list, nested list, ~modifier, multi-line, absent)",
         "rings of 1..4 declarations through every referring relation (mixin, alias, union, field, call, subscription, view call, foreign key), in one file and spread over imported files",
     ])
